@@ -100,20 +100,21 @@ PLANS = {
     ),
     'C11': dict(
         module='RucteProps.C11',
-        theorems=['Ructe.C11.template_no_panic', 'Ructe.C11.template_err_in_range', 'Ructe.C11.template_accepts_whole', 'Ructe.C11.diag_in_range', 'Ructe.C11.noneOf_panics_witness', 'Ructe.C11.showErrors_pinned_panics_witness'],
+        extra_modules=['RucteProps.C11Total'],
+        theorems=['Ructe.C11.template_no_panic', 'Ructe.C11.template_err_in_range', 'Ructe.C11.template_accepts_whole', 'Ructe.C11.diag_in_range', 'Ructe.C11.noneOf_panics_witness', 'Ructe.C11.showErrors_pinned_panics_witness', 'Ructe.C11.reject_has_diag', 'Ructe.C11.template_fuel_mono', 'Ructe.C11.template_no_oom', 'Ructe.C11.template_total'],
         runs=[dict(suite='parse', mix='examples,mutate,tokens,nesting,exhaustive,structured',
-                   n=dict(quick=6000, thorough=1000000), projection='accept', tags=['C11'])],
+                   n=dict(quick=6000, thorough=120000), projection='accept', tags=['C11'])],
         correspondence='accept / reject / panic of template(), and for a rejection the line number, echoed line and caret column of every diagnostic, vs Ructe.template + Ructe.showErrors (message wording is not compared)',
         rule='token-alphabet strings (33 tokens) exhaustively to length 3 (quick) / 4 (thorough) behind a valid header, random token strings to length 9, mutations/splices of the example templates, structured templates, nesting 1..100 of every bracket / block kind closed and unclosed; non-trivial = distinct accepted syntax trees + rejected inputs with a diagnostic',
         assumptions=['stack exhaustion of the real recursion is runtime behaviour outside the model; nesting to 100 levels is exercised directly'],
         level_text='no_panic / reject_has_diag / diag_in_range style theorems about the model parser and show_errors for all byte strings; tie: differential run on accept/reject/panic and diagnostic positions; oracle on the implementation: no panic, at least one diagnostic, line/column inside the input, echoed line is the source line.',
-        level_note='Trusted: Lean kernel; hand-written model of the nom-8 combinators and of ructe\'s grammar (validated by the tie); fuel adequacy (termination) is argued, see DESIGN.md.',
+        level_note='Trusted: Lean kernel; hand-written model of the nom-8 combinators and of ructe\'s grammar (validated by the tie). Termination (fuel adequacy, template_no_oom) and totality (template_total) are proved; stack depth of the real recursion is runtime behaviour.',
         design_ref='DESIGN.md §6 C11',
     ),
     'C01': dict(
         module='RucteProps.C01',
         theorems=['Ructe.C01.textLit_ascii', 'Ructe.C01.textLit_nonascii', 'Ructe.C01.lower_text', 'Ructe.C01.render_text'],
-        runs=[dict(suite='parse', mix='examples,text,structured', n=dict(quick=4000, thorough=200000), projection='body',
+        runs=[dict(suite='parse', mix='examples,text,structured', n=dict(quick=4000, thorough=80000), projection='body',
                    tags=['C01'], literal_oracle=True),
               dict(suite='e2e', n=dict(quick=300, thorough=6000), projection='identity', tags=['C01'])],
         correspondence='syntax tree of the parse and the body of the generated code vs Ructe.template / Ructe.writeRust; every printed text literal is decoded by the Lean model of rustc\'s literal lexer and compared with the text node',
@@ -127,7 +128,7 @@ PLANS = {
         module='RucteProps.C05',
         theorems=['Ructe.C05.expression_sound', 'Ructe.C05.exprInsideParens_sound', 'Ructe.C05.quotedString_sound', 'Ructe.C05.expression_nonempty', 'Ructe.C05.expression_no_panic', 'Ructe.C05.emit_verbatim', 'Ructe.C05.slash_pinned_witness'],
         runs=[dict(suite='sub', n=dict(quick=20000, thorough=600000), projection='identity', tags=['C05']),
-              dict(suite='parse', mix='structured,examples', n=dict(quick=2000, thorough=60000), projection='body', tags=['C05'])],
+              dict(suite='parse', mix='structured,examples', n=dict(quick=2000, thorough=30000), projection='body', tags=['C05'])],
         correspondence='consumed length / value / error list of expression, expr_inside_parens, quoted_string, rust_comment and the other named sub-parsers, and the syntax tree + body code of whole templates, vs the Lean transcription',
         rule='expressions from the documented grammar (prefix, atom, postfix chain, nested groups with plain runs / strings with every supported escape and embedded delimiters / block comments with embedded delimiters and quotes / division followed by delimiters and quotes) x 18 follower classes; near-miss token strings through 15 sub-parsers; non-trivial = distinct documented fragments',
         assumptions=['the fragment is opaque Rust: that it reaches rustc unmodified is the correspondence on the printed code; that it is evaluated once is the e2e run'],
@@ -138,7 +139,7 @@ PLANS = {
     'C13': dict(
         module='RucteProps.C13',
         theorems=['Ructe.C13.signature_shape', 'Ructe.C13.content_exact', 'Ructe.C13.content_suffix_only', 'Ructe.C13.printParam_other', 'Ructe.C13.pinned_counterexamples'],
-        runs=[dict(suite='parse', mix='decl,examples,structured', n=dict(quick=4000, thorough=100000), projection='header', tags=['C13'])],
+        runs=[dict(suite='parse', mix='decl,examples,structured', n=dict(quick=4000, thorough=60000), projection='header', tags=['C13'])],
         correspondence='the printed signature (use lines, lifetime list, parameter lines) of every accepted template vs Ructe.fnHeader',
         rule='0..8 parameters over 16 type shapes incl. Content / ContentType / Contents / MyContent / &Content / Vec<Content>, 7 colon layouts, parameter names resembling internals, 0..3 use lines incl. renames/globs/nested braces; non-trivial = distinct accepted syntax trees',
         assumptions=['that calls with values of the declared types type-check is rustc\'s judgement (e2e)'],
@@ -149,7 +150,7 @@ PLANS = {
     'C15': dict(
         module='RucteProps.C15',
         theorems=['Ructe.C15.spacelike_complete', 'Ructe.C15.layout_irrelevant_at_slot', 'Ructe.C15.comment_complete', 'Ructe.C15.multispace0_complete', 'Ructe.C15.spacelike_total', 'Ructe.C15.pinned_comment_counterexample'],
-        runs=[dict(suite='parse', mix='structured', n=dict(quick=5000, thorough=150000), projection='text', tags=['C15'])],
+        runs=[dict(suite='parse', mix='structured', n=dict(quick=5000, thorough=50000), projection='text', tags=['C15'])],
         correspondence='generated code, byte for byte, of canonical and perturbed prints of the same source tree vs the model\'s single answer',
         rule='every structured template printed canonically and twice with random admissible layouts (white space, LF, CRLF, tabs, 8 comment shapes incl. `**@` endings) at every slot kind; non-trivial = distinct accepted syntax trees',
         assumptions=[],
@@ -197,7 +198,7 @@ PLANS = {
         theorems=['Ructe.C18.template_code_pure', 'Ructe.C18.template_code_location_independent', 'Ructe.C18.build_deterministic', 'Ructe.C18.statics_line_pure'],
         runs=[dict(suite='script', mix='tree,statics', n=dict(quick=150, thorough=3000), projection='script+files', tags=['C18']),
               dict(suite='script', mix='history', n=dict(quick=60, thorough=1500), projection='script+files', tags=['C18']),
-              dict(suite='parse', mix='examples,structured', n=dict(quick=1500, thorough=50000), projection='text', tags=['C18'])],
+              dict(suite='parse', mix='examples,structured', n=dict(quick=1500, thorough=25000), projection='text', tags=['C18'])],
         correspondence='generated files byte for byte vs the model\'s single answer; the same tree in shuffled creation orders and other locations (tmpfs / ext4) must agree',
         rule='every tree scenario again with shuffled creation order (= read_dir order on tmpfs) at another location; the code for (name, template bytes) recorded across all scenarios; non-trivial = distinct run outputs + distinct accepted syntax trees',
         assumptions=[],
@@ -283,7 +284,7 @@ PLANS = {
         module='RucteProps.C03',
         theorems=['Ructe.C03.render_if_taken', 'Ructe.C03.render_else_if', 'Ructe.C03.else_if_flattening', 'Ructe.C03.render_for', 'Ructe.C03.render_match', 'Ructe.C03.render_seq', 'Ructe.C03.render_fuel_mono'],
         runs=[dict(suite='e2e', n=dict(quick=800, thorough=12000), projection='identity', tags=['C03']),
-              dict(suite='parse', mix='structured,examples', n=dict(quick=1500, thorough=50000), projection='body', tags=['C03'])],
+              dict(suite='parse', mix='structured,examples', n=dict(quick=1500, thorough=25000), projection='body', tags=['C03'])],
         correspondence='bytes written by the rustc-compiled generated functions vs Ructe.renderL (specification semantics under the mini-Rust Sem) of the model\'s parse; syntax tree and body code of structured templates vs the model',
         rule='typed template programs: 1..5 templates per program in up to 3 module levels, acyclic calls with 0..3 Content blocks (empty / comment-only / nested directives and calls), if / else-if chains / if-let / for over slices, tuples (& patterns), struct destructuring, ranges, enumerate / match with 2..3 arms, every relational operator, negation, &&, ||; 3 argument sets per program; every rendering re-run under fault sinks (failure at every byte offset for renderings up to 48 bytes, sampled beyond; chunk sizes 1 / 3 / 7 / unlimited; Interrupted every 2nd / 5th call); non-trivial = distinct renderings + distinct accepted syntax trees',
         assumptions=['user fragments are pure and infallible', 'the mini-Rust evaluator (RucteModel/MiniRust.lean) agrees with rustc on the generated fragment language (validated by this run)'],
@@ -295,7 +296,7 @@ PLANS = {
         module='RucteProps.C04',
         theorems=['Ructe.C04.render_call', 'Ructe.C04.block_captures_caller', 'Ructe.C04.render_content_param', 'Ructe.C04.compose_chain', 'Ructe.C04.lower_block'],
         runs=[dict(suite='e2e', n=dict(quick=800, thorough=12000), projection='identity', tags=['C04'], args=['--layout']),
-              dict(suite='parse', mix='structured,examples', n=dict(quick=1500, thorough=50000), projection='body', tags=['C04'])],
+              dict(suite='parse', mix='structured,examples', n=dict(quick=1500, thorough=25000), projection='body', tags=['C04'])],
         correspondence='as C03, on programs with calls and Content blocks across modules (templates printed with random layouts)',
         rule='typed template programs: 1..5 templates per program in up to 3 module levels, acyclic calls with 0..3 Content blocks (empty / comment-only / nested directives and calls), if / else-if chains / if-let / for over slices, tuples (& patterns), struct destructuring, ranges, enumerate / match with 2..3 arms, every relational operator, negation, &&, ||; 3 argument sets per program; every rendering re-run under fault sinks (failure at every byte offset for renderings up to 48 bytes, sampled beyond; chunk sizes 1 / 3 / 7 / unlimited; Interrupted every 2nd / 5th call); non-trivial = distinct renderings',
         assumptions=['user fragments are pure and infallible', 'module name resolution is rustc\'s (the generated crate compiles or the check reports it)'],
